@@ -48,9 +48,11 @@ def make_store(d, kind, lines):
     os.makedirs(e, exist_ok=True)
     if kind in ('plans', 'both'):
         write(os.path.join(e, 'plans.jsonl'), lines['P'])
-    if kind in ('legacy', 'both', 'nolock_legacy'):
+    if kind == 'both_empty_plans':                       # e.g. after prune + compact of everything: plans.jsonl exists, zero bytes
+        write(os.path.join(e, 'plans.jsonl'), '')
+    if kind in ('legacy', 'both', 'nolock_legacy', 'both_empty_plans'):
         write(os.path.join(e, 'events.jsonl'), lines['L'])
-    if kind in ('plans', 'legacy', 'both'):
+    if kind in ('plans', 'legacy', 'both', 'both_empty_plans'):
         write(os.path.join(e, 'lock'))
 
 
@@ -77,7 +79,7 @@ def build_tree(rng, lines):
         if d == top or (os.path.dirname(d) == top and rng.random() < 0.5):
             r = 1.0                                               # keep some subtrees without any enclosing store
         if r < 0.30:
-            k = rng.choice(['plans', 'legacy', 'both', 'empty', 'nolock_legacy'])
+            k = rng.choice(['plans', 'legacy', 'both', 'empty', 'nolock_legacy', 'both_empty_plans'])
             make_store(d, k, lines)
             stores[d] = k
             if rng.random() < 0.5:
@@ -89,7 +91,7 @@ def build_tree(rng, lines):
         if rng.random() < 0.3:
             write(os.path.join(d, 'f.txt'), 'x\n')
     # fixed fixtures so that every store kind and the corner cases are always present
-    for name, k in [('s_plans', 'plans'), ('s_legacy', 'legacy'), ('s_both', 'both'), ('s_empty', 'empty')]:
+    for name, k in [('s_plans', 'plans'), ('s_legacy', 'legacy'), ('s_both', 'both'), ('s_empty', 'empty'), ('s_both_ep', 'both_empty_plans')]:
         d = os.path.join(top, name)
         os.makedirs(os.path.join(d, 'sub', 'deep'))
         make_store(d, k, lines)
@@ -276,7 +278,7 @@ Print where_bad.''')
         # model: the chosen path; "none" (empty list shown) is what a missing chosen file looks like
         exp = {'plans.jsonl': em.s(e + '/plans.jsonl'), 'events.jsonl': em.s(e + '/events.jsonl')}.get(obs)
         if exp is None:
-            if obs == 'none' and kind == 'empty':
+            if obs == 'none' and kind in ('empty', 'both_empty_plans'):
                 exp = em.s(e + '/plans.jsonl')           # default for a store without any log
             else:
                 problems.append('store %s (%s): list --all gave %s' % (d, kind, obs))
